@@ -69,3 +69,5 @@
 ; ---- well-founded rank of finite trees (termination measure for structural recursion)
 (declare-fun rank (Val) Int)
 (declare-fun rankL (Lst) Int)
+(declare-fun yamlParseF (String) Val)
+(declare-fun yamlParseE (String) ErrV)
